@@ -373,6 +373,10 @@ def discover(inspect):
                 tgt = tgt[4:-1]
             return derives_of(mod, tgt, depth + 1)
         return []
+    nvars = {}
+    for it in items:
+        if it["kind"] == "struct" and len(it["path"]) == 1 and it["name"] == "Variables":
+            nvars[it["path"][0]] = len(it.get("fields") or [])
     for it in items:
         if it["kind"] == "impl" and it.get("trait") and it["trait"].endswith("GraphQLQuery") and not it["path"]:
             mod = None
@@ -384,7 +388,8 @@ def discover(inspect):
             ops.append({"struct": it["for"], "module": mod, "operation_name": consts.get(mod, {}).get("OPERATION_NAME"),
                         "query": consts.get(mod, {}).get("QUERY"),
                         "resp_ser": any(d.split("::")[-1] == "Serialize" for d in derives_of(mod, "ResponseData")),
-                        "vars_de": any(d.split("::")[-1] == "Deserialize" for d in derives_of(mod, "Variables"))})
+                        "vars_de": any(d.split("::")[-1] == "Deserialize" for d in derives_of(mod, "Variables")),
+                        "n_vars": nvars.get(mod)})
     enums = []
     ser_impls = set()
     for it in items:
@@ -407,6 +412,11 @@ def register_fn(case_mod, disc):
             lines.append("    crate::reg_resp_min::<%s>(r, %s);" % (op["struct"], json.dumps(key)))
         if op["vars_de"]:
             lines.append("    crate::reg_vars::<%s>(r, %s);" % (op["struct"], json.dumps(key)))
+        if op.get("n_vars") == 0:
+            # an operation without variables: its `Variables` can be written down without any derive (`Variables {}` is a valid
+            # literal for a unit struct and for an empty braced one), so the request body is observable under every option set
+            lines.append("    r.m.insert(%s.to_string(), Box::new(|_v| serde_json::json!({\"ok\": true, \"body\": crate::ser(&<%s as graphql_client::GraphQLQuery>::build_query(%s::Variables {}))})));"
+                         % (json.dumps("vars0:" + key), op["struct"], op["module"]))
     seen = set()
     for en in disc["enums"]:
         key = "%s/%s/%s" % (case_mod, en["module"], en["name"])
